@@ -655,3 +655,126 @@ pub fn drive_c16(seed: u64, thorough: bool, out: &mut dyn Write) -> usize {
     }
     e.id
 }
+
+/// C13: numeric literals in every form, and the conversions int() uint() double() string() bytes().
+pub fn drive_c13(seed: u64, thorough: bool, out: &mut dyn Write) -> usize {
+    let mut e = Emit { out, id: 0 };
+    let mut rng = Rng::new(seed);
+    let s = |x: &str| Value::String(Arc::new(x.to_string()));
+    let mut lits: Vec<String> = vec![];
+    let mut ints: Vec<i64> = i64_boundary();
+    let mut uints: Vec<u64> = u64_boundary();
+    for _ in 0..(if thorough { 3000 } else { 300 }) {
+        ints.push((rng.next_u64() >> rng.below(64)) as i64 * if rng.chance(1, 2) { 1 } else { -1 });
+        uints.push(rng.next_u64() >> rng.below(64));
+    }
+    for i in &ints {
+        lits.push(format!("{}", i));
+        let mag = i.unsigned_abs();
+        let sign = if *i < 0 { "-" } else { "" };
+        lits.push(format!("{}0x{:x}", sign, mag));
+        lits.push(format!("{}0x{:X}", sign, mag));
+        lits.push(format!("{}.0", i));
+        if *i >= 0 {
+            lits.push(format!("{}u", i));
+        }
+    }
+    for u in &uints {
+        lits.push(format!("{}u", u));
+        lits.push(format!("{}U", u));
+        lits.push(format!("0x{:x}u", u));
+        lits.push(format!("{}", u));          // as an int literal: out of range above i64::MAX
+        lits.push(format!("0x{:x}", u));
+        lits.push(format!("-{}", u));
+    }
+    for t in ["9223372036854775808", "-9223372036854775809", "0x8000000000000000", "-0x8000000000000000", "-0x8000000000000001", "18446744073709551616u", "0x10000000000000000u",
+              "0xFFFFFFFFFFFFFFFFu", "00", "007", "0x0", "-0", "0u", "-0.0", "0.0", "1e0", "1E0", "1e+0", "1e-0", "1.0e308", "1.7976931348623157e308", "1.7976931348623158e308",
+              "1.7976931348623159e308", "1.8e308", "1e309", "4.9e-324", "2.4703282292062327e-324", "2.4703282292062328e-324", "2.5e-324", "1e-400", "0.1", "0.2", "0.30000000000000004",
+              "9007199254740993.0", "9007199254740992.5", "9007199254740993.5", "18446744073709551615.0", "9223372036854775807.0", "1.5e300", ".5", "5.", "1e", "1.e5", "0x1.8p1", "1_000",
+              "123456789012345678901234567890.0", "0.000000000000000000000000000001", "2.2250738585072011e-308", "2.2250738585072014e-308", "100000000000000000000000.0",
+              "8.41e21", "5e-324", "3e-324", "1.0000000000000002", "1.00000000000000011102230246251565404236316680908203125", "1.00000000000000011102230246251565404236316680908203126"] {
+        lits.push(t.to_string());
+    }
+    let mut dbls: Vec<f64> = gen::DBL_POOL.to_vec();
+    dbls.extend_from_slice(&[f64::MAX, f64::MIN_POSITIVE, f64::EPSILON, 2.2250738585072009e-308, 1e21, 1e-7, 123456.789, 0.3, 1.0 / 3.0, 2f64.powi(70), 2f64.powi(-70),
+                             9007199254740991.0, 9007199254740993.0, -9223372036854775808.0, 9223372036854774784.0, 18446744073709549568.0, 4294967296.5]);
+    // random bit patterns; most with a moderate binary exponent (exact decimal/binary comparison of
+    // 300-digit numbers is slow in TLC), a few anywhere in the range
+    for k in 0..(if thorough { 4000 } else { 400 }) {
+        let bits = rng.next_u64();
+        let f = if k % (if thorough { 8 } else { 40 }) == 0 {
+            f64::from_bits(bits)
+        } else {
+            let exp = 1023 - 100 + (rng.below(200) as u64);
+            f64::from_bits((bits & 0x800f_ffff_ffff_ffff) | (exp << 52))
+        };
+        if f.is_finite() {
+            dbls.push(f);
+        }
+    }
+    for d in &dbls {
+        let extreme = d.abs() > 1e60 || (d.abs() < 1e-60 && *d != 0.0);
+        if d.is_finite() && extreme && !thorough {
+            // quick tier: one spelling of the extreme magnitudes (300-digit comparisons are slow in TLC)
+            if rng.chance(1, 3) {
+                lits.push(gen::dbl_lit(*d));
+            }
+        } else if d.is_finite() {
+            lits.push(gen::dbl_lit(*d));
+            lits.push(format!("{:?}", d).replace("e", "e").to_string());
+            if d.abs() < 1e25 && d.abs() > 1e-10 || *d == 0.0 {
+                let t = format!("{}", d);
+                lits.push(if t.contains('.') { t } else { format!("{}.0", t) });
+            }
+        }
+    }
+    for t in &lits {
+        let v = s(t);
+        let o = prog_apply(t, &[]);
+        e.rec("lit", "lit", &v, &Value::Null, t, o);
+    }
+    // conversions on boundary arguments
+    let mut args: Vec<Value> = vec![];
+    for i in &ints { args.push(Value::Int(*i)); }
+    for u in &uints { args.push(Value::UInt(*u)); }
+    let mut conv_dbls = dbls.clone();
+    conv_dbls.extend_from_slice(&[f64::NAN, f64::INFINITY, f64::NEG_INFINITY, -0.0, -0.5, -0.999, -1.0, 0.999, 9223372036854775807.0, 9223372036854775808.0, 9223372036854777856.0,
+                                  -9223372036854775808.0, -9223372036854777856.0, 18446744073709551615.0, 18446744073709551616.0, 18446744073709555712.0, 4.9e-324, 1e19, 1.8446744073709552e19]);
+    for d in &conv_dbls { args.push(Value::Float(*d)); }
+    for t in ["0", "-0", "+5", "5", "-5", " 5", "5 ", "0x10", "1e3", "1.0", "9223372036854775807", "9223372036854775808", "-9223372036854775808", "-9223372036854775809", "18446744073709551615",
+              "18446744073709551616", "-1", "", "abc", "1_0", "١", "٣", "007", "1.5", "-1.5", ".5", "1e400", "-1e400", "inf", "NaN", "nan", "infinity", "1e-400", "0.1", "123456789012345678901234567890",
+              "1.7976931348623157e308", "2.5e-324", "9007199254740993"] {
+        args.push(s(t));
+    }
+    args.extend_from_slice(&[Value::Null, Value::Bool(true), Value::Bytes(Arc::new(vec![0xff])), Value::List(Arc::new(vec![]))]);
+    for a in &args {
+        let vars = vec![("a".to_string(), a.clone())];
+        for (f, op) in [("int", "toint"), ("uint", "touint"), ("double", "todbl")] {
+            if let (Value::String(_), "todbl") = (a, op) {
+                let o = prog_apply("double(a)", &vars);
+                e.rec("strdbl", "var", a, &Value::Null, "double(a)", o);
+                continue;
+            }
+            let src = format!("{}(a)", f);
+            let o = prog_apply(&src, &vars);
+            e.rec(op, "var", a, &Value::Null, &src, o);
+        }
+        match a {
+            Value::Int(_) => { let o = prog_apply("int(string(a)) == a", &vars); e.rec("intrt", "var", a, &Value::Null, "int(string(a)) == a", o);
+                               let o = prog_apply("string(a)", &vars); e.rec("tostr", "var", a, &Value::Null, "string(a)", o); }
+            Value::UInt(_) => { let o = prog_apply("uint(string(a)) == a", &vars); e.rec("uintrt", "var", a, &Value::Null, "uint(string(a)) == a", o);
+                                let o = prog_apply("string(a)", &vars); e.rec("tostr", "var", a, &Value::Null, "string(a)", o); }
+            Value::Float(f) if !thorough && f.is_finite() && (f.abs() > 1e60 || (f.abs() < 1e-60 && *f != 0.0)) && !rng.chance(1, 6) => {}
+            Value::Float(_) => { let o = prog_apply("double(string(a)) == a", &vars); e.rec("dblrt", "var", a, &Value::Null, "double(string(a)) == a", o);
+                                 let o = prog_apply("string(a)", &vars); e.rec("dblstr", "var", a, &Value::Null, "string(a)", o); }
+            Value::String(_) => { let o = prog_apply("string(bytes(a)) == a", &vars); e.rec("strrt", "var", a, &Value::Null, "string(bytes(a)) == a", o); }
+            _ => {}
+        }
+    }
+    for t in gen::STR_POOL {
+        let a = s(t);
+        let o = prog_apply("string(bytes(a)) == a", &[("a".to_string(), a.clone())]);
+        e.rec("strrt", "var", &a, &Value::Null, "string(bytes(a)) == a", o);
+    }
+    e.id
+}
